@@ -10,7 +10,8 @@ for sd in $seeds; do
  for p in C01 C02 C03 C04 C05 C06 C07 C08 C09 C10 C11 C12 C13 C14 C15 C16 C18 C19 C20; do
   out=$(VERIF_SEED=$sd timeout 3000 /venv/bin/python bin/check.py $p --tier $tier --no-evidence 2>&1)
   code=$?
-  echo "seed=$sd $p exit=$code $(echo "$out" | grep -v KNOWN | tail -1 | cut -c1-160)"
+  echo "seed=$sd $p exit=$code $(echo "$out" | grep -v KNOWN | grep "^OK\|VIOLATION" | tail -1 | cut -c1-160)"
+  echo "$out" | grep "signal:" | cut -c1-400
   if [ $code -ne 0 ]; then echo "$out" > soak_logs/$tier-$sd-$p.log; cp replays/$p-${sd}00*.json soak_logs/ 2>/dev/null; echo "$out" | grep "VIOLATION\|oracle=\|HARNESS" | head -6 | cut -c1-400; fi
  done
 done
